@@ -326,3 +326,88 @@ Proof.
       * exact (Hoth _ _ _ _ _ Fgs Hne Hrun).
     + intros g2; exact (Hdone _ g2 Fgs).
 Qed.
+
+Lemma Kpid_same s s' :
+  heap s' = heap s -> nobj s' = nobj s -> pmap s' = pmap s -> gens s' = gens s -> ngen s' = ngen s ->
+  Kpid s -> Kpid s' /\ heap_ext (heap s) (nobj s) (heap s') (nobj s').
+Proof.
+  intros H1 H2 H3 H4 H5 K. unfold Kpid. rewrite H1, H2, H3, H4, H5. split; [exact K|apply heap_ext_refl].
+Qed.
+
+Lemma Kstep valid s e :
+  Kpid s -> Kpid (fst (step valid s e)) /\ heap_ext (heap s) (nobj s) (heap (fst (step valid s e))) (nobj (fst (step valid s e))).
+Proof.
+  intros K. pose proof K as [K1 [K2 K3]].
+  destruct e; cbn [step].
+  - destruct (_ && _); apply Kpid_same; auto.
+  - apply Kpid_same; auto.
+  - apply Kpid_same; auto.
+  - destruct (_ && _); apply Kpid_same; auto.
+  - apply Kpid_same; auto.
+  - destruct (pids_sorted _) as [[l low]| |]; apply Kpid_same; auto.
+  - destruct (n <? 0); [apply Kpid_same; auto|]. destruct (n =? 0); [|apply Kpid_same; auto].
+    destruct (pids_sorted _) as [[l low]| |]; apply Kpid_same; auto.
+  - (* IterNew *)
+    unfold Kpid; cbn [fst mk heap nobj pmap gens ngen]. split; [|apply heap_ext_refl]. split; [exact K1|]. split.
+    + intros g a pm rest Hrun. rewrite set_gen_eq in Hrun. destruct (Nat.eqb g (ngen s)); [discriminate|].
+      exact (K2 _ _ _ _ Hrun).
+    + intros g Hge. rewrite set_gen_eq. assert (Nat.eqb g (ngen s) = false) as -> by (apply Nat.eqb_neq; lia).
+      apply K3. lia.
+  - (* IterNext *)
+    destruct (Nat.leb (ngen s) g) eqn:Hg; [apply Kpid_same; auto|]. apply Nat.leb_gt in Hg.
+    destruct (gens s g) as [a|a pm rest|] eqn:Eg; [| |apply Kpid_same; auto].
+    + destruct (gen_start (tbl s) (pmap s) (reused s)) as [[[pm ls] low]|e|] eqn:Es.
+      * destruct (gen_start_sub _ _ _ _ _ _ Es) as [S1 S2].
+        set (s1 := mk s (tbl s) (pmap s) [] (Some low) (heap s) (nobj s) (gens s) (ngen s)).
+        assert (Kp : dict_ok (heap s1) (nobj s1) pm).
+        { intros p o Hgt. apply K1. now apply S1. }
+        assert (Kr : rest_tok (heap s1) (nobj s1) ls).
+        { intros p o Hin. apply K1. apply S1. now apply S2. }
+        exact (run_loop_K valid s1 g a pm ls K Hg Kp Kr).
+      * unfold Kpid, with_gen; cbn [fst mk heap nobj pmap gens ngen]. split; [|apply heap_ext_refl]. split; [exact K1|]. split.
+        -- intros g2 a2 pm2 rest2 Hrun. rewrite set_gen_eq in Hrun. destruct (Nat.eqb g2 g); [discriminate|].
+           exact (K2 _ _ _ _ Hrun).
+        -- intros g2 Hge. rewrite set_gen_eq. destruct (Nat.eqb g2 g); [reflexivity|now apply K3].
+      * unfold Kpid, with_gen; cbn [fst mk heap nobj pmap gens ngen]. split; [|apply heap_ext_refl]. split; [exact K1|]. split.
+        -- intros g2 a2 pm2 rest2 Hrun. rewrite set_gen_eq in Hrun. destruct (Nat.eqb g2 g); [discriminate|].
+           exact (K2 _ _ _ _ Hrun).
+        -- intros g2 Hge. rewrite set_gen_eq. destruct (Nat.eqb g2 g); [reflexivity|now apply K3].
+    + destruct (K2 _ _ _ _ Eg) as [Kp Kr]. exact (run_loop_K valid s g a pm rest K Hg Kp Kr).
+  - (* IterClose *)
+    destruct (Nat.leb (ngen s) g) eqn:Hg; [apply Kpid_same; auto|].
+    destruct (gens s g) as [a|a pm rest|] eqn:Eg;
+      unfold Kpid, with_gen; cbn [fst mk heap nobj pmap gens ngen]; (split; [|apply heap_ext_refl]).
+    + split; [exact K1|]. split.
+      * intros g2 a2 pm2 rest2 Hrun. rewrite set_gen_eq in Hrun. destruct (Nat.eqb g2 g); [discriminate|].
+        exact (K2 _ _ _ _ Hrun).
+      * intros g2 Hge. rewrite set_gen_eq. destruct (Nat.eqb g2 g); [reflexivity|now apply K3].
+    + split; [exact (proj1 (K2 _ _ _ _ Eg))|]. split.
+      * intros g2 a2 pm2 rest2 Hrun. rewrite set_gen_eq in Hrun. destruct (Nat.eqb g2 g); [discriminate|].
+        exact (K2 _ _ _ _ Hrun).
+      * intros g2 Hge. rewrite set_gen_eq. destruct (Nat.eqb g2 g); [reflexivity|now apply K3].
+    + split; [exact K1|]. split.
+      * intros g2 a2 pm2 rest2 Hrun. rewrite set_gen_eq in Hrun. destruct (Nat.eqb g2 g); [discriminate|].
+        exact (K2 _ _ _ _ Hrun).
+      * intros g2 Hge. rewrite set_gen_eq. destruct (Nat.eqb g2 g); [reflexivity|now apply K3].
+  - (* CacheClear *)
+    unfold Kpid; cbn [fst mk heap nobj pmap gens ngen]. split; [|apply heap_ext_refl]. split; [|split; [exact K2|exact K3]].
+    intros p o Hgt. discriminate.
+  - (* IsRunning *)
+    destruct (Nat.leb (nobj s) o) eqn:Ho; [apply Kpid_same; auto|]. apply Nat.leb_gt in Ho.
+    destruct (is_running_obj _ _ _ _) as [[r ob'] ru'] eqn:Er.
+    pose proof (is_running_obj_pid _ _ _ _ _ _ _ Er) as Hp.
+    unfold Kpid; cbn [fst mk heap nobj pmap gens ngen].
+    pose proof (heap_ext_upd (heap s) (nobj s) o ob' Ho Hp) as He.
+    split; [|exact He]. split; [exact (dict_ok_ext _ _ _ _ _ He K1)|]. split; [|exact K3].
+    intros g a pm rest Hrun. destruct (K2 _ _ _ _ Hrun) as [H1 H2].
+    split; [exact (dict_ok_ext _ _ _ _ _ He H1)|exact (rest_tok_ext _ _ _ _ _ He H2)].
+Qed.
+
+Lemma Kpid_init : Kpid init.
+Proof. split; [intros p o H; discriminate|]. split; [intros g a pm rest H; discriminate|reflexivity]. Qed.
+
+Lemma Kpid_fold valid h : forall s, Kpid s -> Kpid (fold_left (fun s e => fst (step valid s e)) h s).
+Proof. induction h as [|e h IH]; intros s K; [exact K|]. cbn [fold_left]. apply IH. apply (Kstep valid s e K). Qed.
+
+Theorem Kpid_final valid h : Kpid (final valid h).
+Proof. apply Kpid_fold. apply Kpid_init. Qed.
